@@ -606,7 +606,8 @@ package vegeta
 //@ func (*peekingScanner).Text
 //@   inline
 //@ func startsWithHTTPMethod
-//@   trusted
+//@   property C14 C16
+//@   requires [package-initialised] httpMethodChecker != nil
 //@   modifies nothing
 
 // HTTP targeter: the whole decode is one critical section under mu; it writes only *tgt, the
@@ -617,7 +618,7 @@ package vegeta
 //@   guarded peekingScanner by &mu
 //@   guarded bufio.Scanner by &mu
 //@   requires [scanner-ready] sc.src != nil && !held(&mu) && scanleft(sc.src) >= 0
-//@   requires [package-initialised] ErrNilTarget != nil && ErrNoTargets != nil
+//@   requires [package-initialised] ErrNilTarget != nil && ErrNoTargets != nil && httpMethodChecker != nil
 //@   modifies *tgt, sc.peeked, *sc.src
 //@   ensures [nil-target-rejected] tgt == nil ==> err == ErrNilTarget
 //@   ensures [own-header-map] err == nil ==> tgt.Header != nil && fresh(tgt.Header)
@@ -711,6 +712,7 @@ package vegeta
 //@   property C07
 //@   modifies nothing
 //@   ensures [nil-header-is-empty-column] h == nil ==> result == nil
+//@   ensures [non-nil-header-is-never-an-empty-column] h != nil ==> len(result) >= 2
 
 //@ func NewCSVEncoder$1
 //@   property C07 C09
@@ -736,11 +738,15 @@ package vegeta
 //@   before call Flush: assert [flush-after-the-whole-record] writes == 1 && flushes == 0 ; ghost flushes = flushes + 1
 //@   ensures [one-whole-record-per-call] writes == 1 && (err == nil ==> flushes == 1)
 
+//@ func NewCSVDecoder
+//@   property C07 C09 C16
+//@   at store dec.FieldsPerRecord: assert [twelve-documented-columns] arg0 == 12 ; ghost csvFields(dec) = arg0
+
 //@ func NewCSVDecoder$1
 //@   property C07 C09 C16
 //@   returns (err)
 //@   requires [non-nil] r != nil && dec != nil
-//@   requires [twelve-fields-per-record] csvFields(dec) == 12
+//@   requires [obj-twelve-fields-per-record] csvFields(dec) == 12
 //@   modifies *r, *dec
 //@   ensures [timestamp] err == nil ==> parseint_ok(rec[0], 10, 64) && r.Timestamp == parseint(rec[0], 10)
 //@   ensures [code] err == nil ==> parseuint_ok(rec[1], 10, 16) && r.Code == parseuint(rec[1], 10)
